@@ -51,6 +51,9 @@ impl Item {
             "VR" => format!("var {n}: i32 = {n};"),
             "RV" => format!("{n}"),
             "M" => "h();".to_string(),
+            "MX" => "h(x);".to_string(),
+            "MY" => "hp(x);".to_string(),
+            "SX" => "cx = cx + 1;".to_string(),
             "S" => "x = x + 1;".to_string(),
             "LP" => "loop;".to_string(),
             "I" => "if x == x".to_string(),
@@ -198,9 +201,17 @@ pub fn render_layout(items: &[Item], consts: &[String], params: &[String], lay: 
     src.push_str(close(own_result));
     src.push('\n');
     line += items.len() + 1;
-    if items.iter().any(|x| x.kind == "M") {
+    if items.iter().any(|x| x.kind == "M" || x.kind == "MX") {
         src.push_str("fn h()\n{\n}\n");
         line += 3;
+    }
+    if items.iter().any(|x| x.kind == "MY") {
+        src.push_str("fn hp(p: &i32)\n{\n}\n");
+        line += 3;
+    }
+    if items.iter().any(|x| x.kind == "SX") {
+        src.push_str("const cx: i32 = 7;\n");
+        line += 1;
     }
     if lay.consts_after {
         for c in consts {
